@@ -1,5 +1,6 @@
 import Proofs.C09
 #print axioms PV.Proofs.C09.declared_isolation
+#print axioms PV.Proofs.C09.declared_reduction
 #print axioms PV.Proofs.C09.seed_only
 #print axioms PV.Proofs.C09.stages_seeded
 #print axioms PV.Proofs.C09.sharedStep_eq
